@@ -70,6 +70,16 @@ theorem us_not_hex : isLowerHexChar us = false := by decide
 theorem isDigits_with_colon (a b : Bytes) : isDigits (a ++ colon :: b) = false := by
   simp [isDigits, List.all_append, colon_not_digit]
 
+theorem colon_ne_minus : (colon = minus) = False := by decide
+
+/-- … nor the integer shortcut (optional leading `-`) -/
+theorem isIntLit_with_colon (a b : Bytes) : isIntLit (a ++ colon :: b) = false := by
+  unfold isIntLit
+  rw [isDigits_with_colon]
+  cases a with
+  | nil => simp [colon_ne_minus]
+  | cons x r => simp [isDigits_with_colon]
+
 theorem us_not_mem_of_hex {b : Bytes} (h : isLowerHex b = true) : us ∉ b := by
   intro m
   have := (List.all_eq_true.mp h) us m
@@ -253,17 +263,17 @@ theorem checkSign_sign (cfg : Cfg α) (hhex : ∀ d s m, isLowerHex (cfg.mac d s
 
 /-- decoding a signed-or-not blob whose payload is `p`: the digit shortcut is skipped, the
 signature verifies, and either the custom decoder or `loads p` decides -/
-theorem decode_signed (cfg : Cfg α) (hhex : ∀ d s m, isLowerHex (cfg.mac d s m) = true) (key p b : Bytes)
-    (hsig : sign cfg key (.bytes p) = some (.bytes b)) (hnd : isDigits b = false) :
-    decode cfg key (.bytes b) false
-      = if isCustomEncoded cfg p then customDecode cfg p else postLoads cfg p (cfg.pickler.loads p) := by
+theorem decode_signed (cfg : Cfg α) (reg : Registry α) (hhex : ∀ d s m, isLowerHex (cfg.mac d s m) = true) (key p b : Bytes)
+    (hsig : sign cfg key (.bytes p) = some (.bytes b)) (hnd : isIntLit b = false) :
+    decode cfg reg key (.bytes b) false
+      = if isCustomEncoded reg p then customDecode reg p else postLoads reg p (cfg.pickler.loads p) := by
   have := checkSign_sign cfg hhex key p b hsig
-  by_cases hc : isCustomEncoded cfg p = true <;> simp [decode, preLoads, hnd, this, hc]
+  by_cases hc : isCustomEncoded reg p = true <;> simp [decode, preLoads, hnd, this, hc]
 
 /-- `tag:payload` with a registered, colon-free tag is recognised as custom-encoded -/
-theorem isCustomEncoded_tagged (cfg : Cfg α) (htags : ∀ tag c, cfg.registry tag = some c → colon ∉ tag)
-    (tag payload : Bytes) (c : Codec α) (hreg : cfg.registry tag = some c) :
-    isCustomEncoded cfg (tag ++ colon :: payload) = true := by
+theorem isCustomEncoded_tagged (reg : Registry α) (htags : ∀ tag c, reg tag = some c → colon ∉ tag)
+    (tag payload : Bytes) (c : Codec α) (hreg : reg tag = some c) :
+    isCustomEncoded reg (tag ++ colon :: payload) = true := by
   simp [isCustomEncoded, splitFirst_append colon _ _ (htags _ c hreg), hreg]
 
 
@@ -275,9 +285,9 @@ def VerifiedPayload (cfg : Cfg α) (s : Signer) (key : Bytes) (w : Val α) (p : 
     ((hdr = d.label ++ colon :: cfg.mac d s.secret (key ++ p)) ∨
      (colon ∉ hdr ∧ d = s.digest ∧ hdr = cfg.mac d s.secret (key ++ p)))
 
-theorem verified_of_check (cfg : Cfg α) (s : Signer) (hs : cfg.signer = some s)
+theorem verified_of_check (cfg : Cfg α) (reg : Registry α) (s : Signer) (hs : cfg.signer = some s)
     (key : Bytes) (w : Val α) (same : Bool) (p : Bytes)
-    (h : preLoads cfg key w same = .loads p ∨ preLoads cfg key w same = .custom p) :
+    (h : preLoads cfg reg key w same = .loads p ∨ preLoads cfg reg key w same = .custom p) :
     VerifiedPayload cfg s key w p := by
   unfold preLoads at h
   cases same with
@@ -288,7 +298,7 @@ theorem verified_of_check (cfg : Cfg α) (s : Signer) (hs : cfg.signer = some s)
     | obj x => simp at h
     | bytes b =>
       simp only [Bool.false_eq_true, if_false] at h
-      by_cases hd : isDigits b = true
+      by_cases hd : isIntLit b = true
       · simp [hd] at h
       · simp only [hd] at h
         cases hc : checkSign cfg key b with
@@ -297,7 +307,7 @@ theorem verified_of_check (cfg : Cfg α) (s : Signer) (hs : cfg.signer = some s)
         | ok p' =>
           have hp : p' = p := by
             simp only [hc] at h
-            by_cases hce : isCustomEncoded cfg p' = true
+            by_cases hce : isCustomEncoded reg p' = true
             · simp [hce] at h; exact h
             · simp [hce] at h; exact h
           subst hp
@@ -305,5 +315,60 @@ theorem verified_of_check (cfg : Cfg α) (s : Signer) (hs : cfg.signer = some s)
           obtain ⟨hdr, d, h1, h2, h3⟩ := checkHash_ok hc
           exact ⟨b, hdr, d, rfl, h1, h2, h3⟩
 
+
+end CashewsVerif.Serial
+
+
+namespace CashewsVerif.Serial
+variable {α : Type}
+
+/-! ### the class-level registry over time -/
+
+theorem Registry.le_refl (r : Registry α) : r.le r := fun _ _ h => h
+
+theorem Registry.le_trans {a b c : Registry α} (h1 : a.le b) (h2 : b.le c) : a.le c :=
+  fun tag x h => h2 tag x (h1 tag x h)
+
+theorem Registry.register_same (r : Registry α) (tag : Bytes) (c : Codec α) : r.register tag c tag = some c := by
+  simp [Registry.register]
+
+theorem Registry.register_other (r : Registry α) (tag t : Bytes) (c : Codec α) (h : t ≠ tag) :
+    r.register tag c t = r t := by
+  simp [Registry.register, h]
+
+/-- registering a name that was not bound keeps every earlier pair -/
+theorem Registry.le_register_fresh (r : Registry α) (tag : Bytes) (c : Codec α) (h : r tag = none) :
+    r.le (r.register tag c) := by
+  intro t x hx
+  by_cases e : t = tag
+  · subst e; rw [h] at hx; cases hx
+  · rw [Registry.register_other r tag t c e]; exact hx
+
+/-- registering a name again with the very same pair changes nothing -/
+theorem Registry.le_register_again (r : Registry α) (tag : Bytes) (c : Codec α) (h : r tag = some c) :
+    r.le (r.register tag c) := by
+  intro t x hx
+  by_cases e : t = tag
+  · subst e; rw [h] at hx; rw [Registry.register_same]; exact hx
+  · rw [Registry.register_other r tag t c e]; exact hx
+
+/-- a run of registrations each of which binds a name that the ORIGINAL registry `r` did not bind (the same new
+name may be bound several times, by different pairs): every pair of `r` survives -/
+theorem Registry.le_registerAll (r : Registry α) (l : List (Bytes × Codec α)) (h : ∀ tc ∈ l, r tc.1 = none) :
+    r.le (r.registerAll l) := by
+  suffices H : ∀ (l : List (Bytes × Codec α)) (r' : Registry α), r.le r' → (∀ tc ∈ l, r tc.1 = none) →
+      r.le (r'.registerAll l) from H l r (Registry.le_refl r) h
+  intro l
+  induction l with
+  | nil => intro r' h' _; exact h'
+  | cons tc rest ih =>
+    intro r' h' hl
+    simp only [Registry.registerAll, List.foldl_cons]
+    apply ih
+    · intro t x hx
+      by_cases e : t = tc.1
+      · subst e; rw [hl tc (by simp)] at hx; cases hx
+      · rw [Registry.register_other r' tc.1 t tc.2 e]; exact h' t x hx
+    · intro tc' m; exact hl tc' (by simp [m])
 
 end CashewsVerif.Serial
